@@ -361,6 +361,6 @@ func init() {
 		Rule: "documents: the document grammar {t: T, v: V} with T over every defined tag, internal tags, unknown, negative, fractional, string, null, absent and V over absent/null/wrong-typed scalars/containers, and for each structured kind every combination of its fields in {absent, null, wrong type, empty, valid, nested sub-document from a 31-document set incl. unknown native names, bound-method names, null elements, broken expressions}; each also wrapped as a variable-map entry; documents with duplicated keys; variable-map documents are also reloaded into maps in 7 used internal states; plus every truncation and 6 single-byte edits at every position of 9 valid documents. Every successfully decoded value goes through the battery: ToString, ToRepr, AsBool, GetTypeName, Clone, ValueEqual (self, copy, 6 other kinds, both argument orders), AsDictKey, ToJSON + re-decode, map ToJSON, and 59 scripts with the value bound as a variable (indexing, calling, arithmetic, attribute access, methods, dice, templates, conversion builtins, control flow). Oracle: no Go panic, fatal error or hang. Non-trivial = document decodes to a value; distinct by document.",
 		Enumerate: c10Enumerate,
 		Run:       c10Run,
-		Budget:    map[string]time.Duration{"quick": 170 * time.Second, "thorough": 40 * time.Minute},
+		Budget:    map[string]time.Duration{"quick": 400 * time.Second, "thorough": 40 * time.Minute},
 	})
 }
